@@ -51,6 +51,8 @@ type tree interface {
 	ExportTo(v int64, db dbm.DB, o opt) (tree, error)
 	Spec() *ics23.ProofSpec
 	Height() int // of the working tree (coverage statistics only)
+	// VersionedProof: the tree's own "proof for key at version" entry point (existence or non-existence)
+	VersionedProof(k []byte, v int64) (*ics23.CommitmentProof, error)
 }
 
 func drain(it dbm.Iterator) ([]kv, error) {
@@ -123,7 +125,20 @@ func (b *bpTree) Version() int64                                 { return b.t.Ve
 func (b *bpTree) AvailableVersions() []int                       { return b.t.AvailableVersions() }
 func (b *bpTree) VersionExists(v int64) bool                     { return b.t.VersionExists(v) }
 func (b *bpTree) Spec() *ics23.ProofSpec                         { return bp.BptreeSpec }
-func (b *bpTree) Height() int                                    { return int(b.t.Height()) }
+func (b *bpTree) VersionedProof(k []byte, v int64) (*ics23.CommitmentProof, error) {
+	im, err := b.t.GetImmutable(v)
+	if err != nil {
+		return nil, err
+	}
+	defer im.Close()
+	if has, err := im.Has(k); err != nil {
+		return nil, err
+	} else if has {
+		return im.GetMembershipProof(k)
+	}
+	return im.GetNonMembershipProof(k)
+}
+func (b *bpTree) Height() int { return int(b.t.Height()) }
 
 func (b *bpTree) ExportTo(v int64, db dbm.DB, o opt) (tree, error) {
 	im, err := b.t.GetImmutable(v)
@@ -271,7 +286,10 @@ func (b *iaTree) AvailableVersions() []int {
 }
 func (b *iaTree) VersionExists(v int64) bool { return b.t.VersionExists(v) }
 func (b *iaTree) Spec() *ics23.ProofSpec     { return ics23.IavlSpec }
-func (b *iaTree) Height() int                { return int(b.t.Height()) }
+func (b *iaTree) VersionedProof(k []byte, v int64) (*ics23.CommitmentProof, error) {
+	return b.t.GetVersionedProof(k, v)
+}
+func (b *iaTree) Height() int { return int(b.t.Height()) }
 
 func (b *iaTree) ExportTo(v int64, db dbm.DB, o opt) (tree, error) {
 	im, err := b.t.GetImmutable(v)
@@ -335,6 +353,28 @@ func (s *iaSnap) NonMember(k []byte) (*ics23.CommitmentProof, error) {
 	return s.t.GetNonMembershipProof(k)
 }
 func (s *iaSnap) Close() {}
+
+// freshSnapshot: version v through a brand-new handle on the same DB (no node cache, no fast index, nothing loaded)
+func freshSnapshot(impl string, db dbm.DB, v int64) (reader, func(), error) {
+	switch impl {
+	case "bptree":
+		t := bp.NewMutableTreeWithDB(db, 0, bp.NewNopLogger())
+		im, err := t.GetImmutable(v)
+		if err != nil {
+			t.Close()
+			return nil, nil, err
+		}
+		return &bpSnap{im}, func() { im.Close(); t.Close() }, nil
+	case "iavl":
+		t := iavl.NewMutableTree(db, 0, true, iavl.NewNopLogger())
+		im, err := t.GetImmutable(v)
+		if err != nil {
+			return nil, nil, err
+		}
+		return &iaSnap{im}, func() {}, nil
+	}
+	return nil, nil, fmt.Errorf("unknown impl %q", impl)
+}
 
 func openTree(impl string, db dbm.DB, o opt) (tree, error) {
 	switch impl {
